@@ -17,6 +17,23 @@ def resp_kind(out):
     return out.split(" ")[0]
 
 
+def model_request(line, impl_out):
+    """the request sent to the model for an implementation request: identical, except that random
+    draws of the implementation (salt seeds) are read off its output and passed to the model as inputs"""
+    if line.startswith("privenc "):
+        p = line.split(" ")
+        seed = 0
+        if impl_out.startswith("ok ") and "/" in impl_out:
+            salt = impl_out[3:].split(";")[0].split("/")[1]
+            alg = p[1]
+            if alg == "1" and len(salt) == 16:
+                seed = int(salt[8:], 16)
+            elif alg == "2" and len(salt) == 16:
+                seed = int(salt, 16)
+        return " ".join(p[:7] + [f"seed={seed}"] + p[7:])
+    return line
+
+
 class Streams:
     """collects named streams of request lines, runs both sides once, exposes outputs"""
 
@@ -44,7 +61,8 @@ class Streams:
                                {"kind": "oracle", "lines": [self.lines[k]], "stderr": err[-500:]})
             self.impl += ["<died>"] * (len(self.lines) - len(self.impl))
         if self.model_ok:
-            self.model, rc2, err2 = common.run_model(self.lines)
+            mlines = [model_request(l, o) for l, o in zip(self.lines, self.impl)]
+            self.model, rc2, err2 = common.run_model(mlines)
             self.model = [common.canon_model_line(x) for x in self.model]
             if len(self.model) != len(self.lines):
                 self.model += ["<missing>"] * (len(self.lines) - len(self.model))
